@@ -165,6 +165,13 @@ class Sandbox:
         ln('site/ln_fe', '../fe/a.txt')
         ln('site/evil/index.html', '../../etc/passwd')
         ln('site/loop2', 'loop2')
+        # same name in both roots: inside-but-not-a-file under fe, a way out under site
+        f('fe/pair/index.html/keep.txt')
+        ln('site/pair', '../SECRET.txt')
+        f('fe/pair2/index.html/keep.txt')
+        ln('site/pair2/index.html', '../../etc/passwd')
+        f('fe/pair3/index.html/keep.txt')
+        ln('site/pair3', '../outside/dir')
         os.symlink('fe', os.path.join(self.top, 'fe_link'))
         # random extras
         alpha = ['p', 'q', 'r', 'sub', 'deep', 'x.txt', 'w.html', 'v.css']
@@ -242,6 +249,7 @@ class Sandbox:
             '/loop/../ln_out_file', '/loop/../ln_out_abs', '/loop/../ln_out_dir', '/loop/x/../../ln_out_file',
             '/loop/../sub_evil', '/loop/../ln_up/SECRET.txt', '/loop/../a.txt', '/loop/../ln_in_file',
             '/sub/../loop/../ln_out_file', '/loop/../ln_out', '/loop/../evil', '/loop/..', '/loop/.',
+            '/pair', '/pair/', '/pair2', '/pair3', '/pair/index.html', '/pair3/index.html',
             '/loop2/../ln_out', '/loop2/../evil', '/loop2/../ln_fe', '/loop2/x/y/../../../ln_out', '/loop2',
         ]
         for c in corpus:
